@@ -245,7 +245,7 @@ STAGES = [
     Stage(name="pools", kind="hyp", check=check, classify=classify, strategy=strategy,
           budget={"quick": 200, "thorough": 3000},
           floors={"proper-subset-offered": 0.1, "nothing-offered": 0.015, "input=offered": 0.1,
-                  "input=in-pool-not-offered": 0.05, "input=foreign": 0.05, "offer-changes-between-validations": 0.03,
+                  "input=in-pool-not-offered": 0.035, "input=foreign": 0.05, "offer-changes-between-validations": 0.03,
                   "duplicate-qualifier": 0.05},
           sample=sample),
 ]  # fmt: skip
